@@ -208,6 +208,24 @@ func (ex *Explorer) Run(fn *ssa.Function, name string) {
 	t0 := time.Now()
 	ex.queue = [][]int32{{}}
 	var wg sync.WaitGroup
+	doneCh := make(chan struct{})
+	if os.Getenv("SYMGO_PROGRESS") != "" {
+		go func() {
+			tk := time.NewTicker(5 * time.Second)
+			defer tk.Stop()
+			for {
+				select {
+				case <-doneCh:
+					return
+				case <-tk.C:
+					ex.mu.Lock()
+					fmt.Fprintf(os.Stderr, "  .. %s %.0fs paths=%d panic=%d aborted=%v queue=%d active=%d branches=%d\n", name, time.Since(t0).Seconds(), ex.St.Paths, ex.St.PanicPaths, ex.St.Aborted, len(ex.queue), ex.active, ex.St.Branches)
+					ex.mu.Unlock()
+				}
+			}
+		}()
+	}
+	defer close(doneCh)
 	nw := ex.Workers
 	if nw < 1 {
 		nw = 1
